@@ -101,7 +101,8 @@ Print Assumptions C17_yearly_lines_order_independent.
     [same_tables bl1 bl2]: the two sheets hold the same tables -- same type, same typed rows in the same order -- in any order
     of the tables, with any blank rows between them, any junk in unmapped columns, any row widths;
     [renamed_by rho p1 p2]: the three transaction sets of [p2] are those of [p1] with every row id [r] replaced by [rho r], the
-    artificial-id counter is the same, and [rho] is a [table_renaming]: it fixes every id <= 0 (the artificial ids of the fee
+    artificial-id counter is the same, the table row id -> (unique_id, notes) holds the renamed entries (as a permutation: its
+    order follows the sheet), and [rho] is a [table_renaming]: it fixes every id <= 0 (the artificial ids of the fee
     disposals), sends sheet rows to sheet rows, keeps the order of the rows within each table, identifies no two rows;
     [same_up_to_rows p1 p2] := exists rho, renamed_by rho p1 p2;
     [txs_of_parsed]: duplicate-id check, IN set not empty, the three sets sorted by instant -- the second half of [Pipeline.build]
